@@ -1,6 +1,7 @@
 #!/bin/bash
-# usage: seedtest.sh <seed-id> <worktree> <demo-package-dir> "<checks to run>"
-# Confirms a seeded change (builds, existing tests pass, demo fails with / passes without), then runs the given checks on /repo with the patch applied.
+# usage: seedtest.sh <seed-id> <dir with _seed/{patch.diff,demo_test.go,notes.md}> <demo-package-dir> "<checks to run>"
+# Confirms a seeded change on a clean scratch copy of /repo (builds, existing tests pass, demo fails with / passes
+# without the patch), stores it under /verif/seeded/<id>, then runs the given checks on /repo with the patch applied.
 set -u
 id=$1; wt=$2; pkg=$3; checks=$4
 export GOFLAGS=-mod=mod GOPROXY=off GOSUMDB=off GOTOOLCHAIN=local
@@ -8,20 +9,18 @@ mkdir -p /verif/seeded/$id
 cp $wt/_seed/patch.diff /verif/seeded/$id/patch.diff
 cp $wt/_seed/demo_test.go /verif/seeded/$id/demo_test.go
 cp $wt/_seed/notes.md /verif/seeded/$id/notes.md 2>/dev/null
-cd $wt
-echo "== with change: build + existing tests"
-(go build ./... && go test -vet=off -count=1 ./... 2>&1 | grep -v 'no test files') ; suite=$?
-cp _seed/demo_test.go $pkg/zz_demo_test.go
-echo "== demo with change (expect FAIL)"
-go test -vet=off -count=1 ./$pkg 2>&1 | tail -3; 
-git stash -q
+scratch=$(mktemp -d /tmp/seedtest-XXXX)
+trap 'rm -rf $scratch' EXIT
+rsync -a --exclude .git /repo/ $scratch/repo/
+cd $scratch/repo
+cp /verif/seeded/$id/demo_test.go $pkg/zz_demo_test.go
 echo "== demo without change (expect ok)"
 go test -vet=off -count=1 ./$pkg 2>&1 | tail -2
-git stash pop -q
+patch -p1 -s -i /verif/seeded/$id/patch.diff || { echo "PATCH DOES NOT APPLY"; exit 1; }
+echo "== demo with change (expect FAIL)"
+go test -vet=off -count=1 ./$pkg 2>&1 | tail -3
 rm -f $pkg/zz_demo_test.go
+echo "== with change: build + existing tests"
+(go build ./... && go test -vet=off -count=1 ./... 2>&1 | grep -v 'no test files')
 echo "== checks on /repo with the patch"
-[ -z "$(git -C /repo status --short)" ] || { echo "REFUSING: /repo has uncommitted changes"; exit 1; }
-cd /repo && git apply /verif/seeded/$id/patch.diff || { echo "PATCH DOES NOT APPLY"; exit 1; }
-for c in $checks; do (cd /verif && ./check $c quick 2>&1 | grep -E 'VIOLATION|property ' | cut -c1-260); done
-git -C /repo checkout -- .
-git -C /repo status --short | head -3
+/verif/tools/seedrun.sh $id "$checks"
